@@ -44,6 +44,8 @@ type Stim struct {
 	// Pipelined: on stream connections (plain inactivity monitor) the peer's bytes never end on a message boundary: every
 	// chunk carries the rest of the previous frame, a whole frame and the first two bytes of the next one
 	Pipelined bool `json:"pipelined"`
+	// Crowd (real udp server): other peers come and go; every tick finds closed connections of theirs waiting to be dismantled
+	Crowd bool `json:"crowd"`
 }
 
 // pipeline turns frames into chunks that end in the middle of the next frame (an extra request frame per chunk, completed by
